@@ -35,10 +35,12 @@ struct GlueGuard {
     a: u32,
     k: char,
     i: u32,
+    /// the glue runs as part of an unwinding that started elsewhere
+    entered_panicking: bool,
 }
 impl Drop for GlueGuard {
     fn drop(&mut self) {
-        emit(json!({"e": "ret", "op": self.op, "a": self.a, "k": self.k.to_string(), "i": self.i, "panic": if std::thread::panicking() { "unwind" } else { "" }}));
+        emit(json!({"e": "ret", "op": self.op, "a": self.a, "k": self.k.to_string(), "i": self.i, "panic": if std::thread::panicking() && !self.entered_panicking { "unwind" } else { "" }}));
     }
 }
 
@@ -46,7 +48,7 @@ impl<P: Pad> Drop for Slot<P> {
     fn drop(&mut self) {
         if let Some(cc) = self.inner.take() {
             emit(json!({"e": "call", "op": "glue", "a": self.owner, "k": self.kind.to_string(), "i": self.idx, "o": self.target}));
-            let _g = GlueGuard { op: "glue", a: self.owner, k: self.kind, i: self.idx };
+            let _g = GlueGuard { op: "glue", a: self.owner, k: self.kind, i: self.idx, entered_panicking: std::thread::panicking() };
             drop(cc);
         }
     }
@@ -65,7 +67,7 @@ impl<P: Pad> Drop for WSlot<P> {
     fn drop(&mut self) {
         if let Some(w) = self.inner.take() {
             emit(json!({"e": "call", "op": "gluew", "a": self.owner, "k": "w", "i": self.idx, "o": self.target}));
-            let _g = GlueGuard { op: "gluew", a: self.owner, k: 'w', i: self.idx };
+            let _g = GlueGuard { op: "gluew", a: self.owner, k: 'w', i: self.idx, entered_panicking: std::thread::panicking() };
             drop(w);
         }
     }
